@@ -681,8 +681,10 @@ class QueryObjectDescriptor(CanBehaveLikeAVariable[T], ABC):
     @lru_cache(maxsize=None)
     def _all_variable_instances_(self) -> List[Variable]:
         vars = []
-        if self.selected_variables:
-            vars.extend(self.selected_variables)
+        for variable in self.selected_variables:
+            # a selected expression stands for its own variables too (the arguments of a constructed instance, the
+            # variable an attribute is taken from).
+            vars.extend(v for v in [variable] + variable._all_variable_instances_ if not any(v is u for u in vars))
         if self._child_:
             vars.extend(self._child_._all_variable_instances_)
         return vars
